@@ -285,6 +285,11 @@ pub fn eval(e: &E, ph: N) -> RN {
                         return RN::Unspec("aggregate over Integers beyond 2^53");
                     }
                     let r = if canon == "min" { xs.iter().cloned().fold(f64::INFINITY, f64::min) } else { xs.iter().cloned().fold(f64::NEG_INFINITY, f64::max) };
+                    // the minimum / maximum of zeros of both signs (0, 0.0, -0.0) is zero, of unspecified sign and variant:
+                    // what is computed from it may depend on that sign (2/min(0,-0.0))
+                    if r == 0.0 && xs.iter().any(|x| *x == 0.0 && x.is_sign_negative()) && (xs.iter().any(|x| *x == 0.0 && x.is_sign_positive())) {
+                        return RN::Unspec("extremum of zeros of both signs");
+                    }
                     RN::Numeric(r)
                 }
                 "avg" if vs.is_empty() => RN::Numeric(0.0),
